@@ -162,6 +162,33 @@ func init() {
 	}
 }
 
+// 12, 13: elements of different font sizes matched by one rule of the USER style sheet, which is parsed once per process and
+// shared by every render (font-relative lengths must be computed per element, never inside the shared declarations);
+// 14: Hungarian words with non-standard hyphenation points (the patterns of the process-wide dictionary carry data)
+func init() {
+	c15Docs = append(c15Docs,
+		c15Head+`<p class="u" style="font-size:8px">aa bb</p><p class="u" style="font-size:16px">cc dd</p>`,
+		c15Head+`<p class="u" style="font-size:20px">ee</p><div class="u" style="font-size:6px">ff gg</div>`,
+		c15Head+`<p lang="hu" style="hyphens:auto;width:5ch">kulissza hossz&uacute; kulissza asszonnyal</p><p lang="hu" style="hyphens:auto;width:6ch">kulissza</p>`)
+}
+
+var (
+	c15Sheet     []tree.CSS
+	c15SheetOnce sync.Once
+)
+
+// the user style sheet: ONE parsed object per process, handed to every render (the API's intended use)
+func c15UserSheet() []tree.CSS {
+	c15SheetOnce.Do(func() {
+		c, err := tree.NewCSSDefault(utils.InputString(`.u{transform:translate(2em,1em);text-indent:1em;letter-spacing:.125em;padding-left:1ex;margin-left:1ch;border-spacing:1em .5em;line-height:1.5em;width:12em}`))
+		if err != nil {
+			panic("verif: user style sheet: " + err.Error())
+		}
+		c15Sheet = []tree.CSS{c}
+	})
+	return c15Sheet
+}
+
 var (
 	c15Files     map[string]string
 	c15FilesOnce sync.Once
@@ -205,7 +232,7 @@ func (x *c15Render) phase(k int, d int) {
 		}
 		x.html = h
 	case 1:
-		x.doc = document.Render(x.html, nil, false, x.fc)
+		x.doc = document.Render(x.html, c15UserSheet(), false, x.fc)
 	case 2:
 		x.r = rec.New()
 		x.doc.Write(x.r, 1, nil)
